@@ -145,29 +145,79 @@ func c02Twins(c fw.Case) *fw.Result {
 					s.Close()
 				}
 			}()
-			for round := 0; round < 12; round++ {
+			for round := 0; round < 16; round++ {
+				// scan A: its reader is held inside the g-th Read, then A is cancelled
 				ctx, cancel := context.WithCancel(context.Background())
 				rd := mon.NewReader(j.data)
-				rd.Chunk = 512
-				rd.DelayAt = map[int64]time.Duration{}
-				for off := int64(2048); off < int64(len(j.data)); off += 2048 {
-					rd.DelayAt[off] = 300 * time.Microsecond
+				rd.Chunk = 2048
+				entered, release := make(chan struct{}), make(chan struct{})
+				g := int64(7 + round%9) // beyond the blocks a Scan reads on the caller's own goroutine
+				rd.Gate = func(call int64) {
+					if call == g {
+						close(entered)
+						<-release
+					}
 				}
 				s := osmpbf.New(ctx, rd, []int{1, 2, 4, 11}[round%4])
-				k := 0
-				for k < 3+round && s.Scan() {
-					if k < len(j.want) {
-						if d := pbfw.Compare(j.want[k], s.Object()); d != "" {
-							res.Violatef("C02/twins/after-abandoned-scan", "round %d: object #%d of a scan started right after another scan had been cancelled: %s", round, k, d)
-							break
-						}
+				aDone := make(chan struct{})
+				go func() { // A's consumer: it blocks in Scan once the reader is held
+					defer close(aDone)
+					for s.Scan() {
 					}
-					k++
+				}()
+				held := false
+				select {
+				case <-entered:
+					held = true
+				case <-aDone: // the file was shorter than g reads
 				}
 				cancel()
+				// Scan returns false after the cancellation — unless it is the consumer's own
+				// goroutine that sits in the held Read (a library may read more on the caller's
+				// goroutine than this one does): then the hold is given up and the round is an
+				// ordinary cancel
+				released := false
+				for i := 0; ; i++ {
+					select {
+					case <-aDone:
+					default:
+						if i < 40000 {
+							runtime.Gosched()
+							if i%200 == 199 {
+								time.Sleep(50 * time.Microsecond)
+							}
+							continue
+						}
+						close(release)
+						released, held = true, false
+						<-aDone
+					}
+					break
+				}
 				abandoned = append(abandoned, s)
+				// scan B starts at once, while A's reader still sits in its Read
+				bs := osmpbf.New(context.Background(), mon.NewReader(j.data), []int{2, 1, 11, 4}[round%4])
+				var got []osm.Object
+				for len(got) < 5 && bs.Scan() {
+					got = append(got, bs.Object())
+				}
+				if !released {
+					close(release) // A's Read now completes and writes into whatever buffer it was given
+				}
+				for bs.Scan() {
+					got = append(got, bs.Object())
+				}
+				if err := bs.Err(); err != nil {
+					res.Violatef("C02/twins/after-abandoned-scan/err", "round %d: a scan started right after another scan had been cancelled inside Read failed on a valid file: %v", round, err)
+				} else if d := pbfw.CompareSeq(j.want, got); d != "" {
+					res.Violatef("C02/twins/after-abandoned-scan", "round %d: a scan started right after another scan had been cancelled inside Read: %s", round, d)
+				}
+				bs.Close()
+				if held {
+					res.Add("scans_cancelled_inside_read", 1)
+				}
 			}
-			res.Add("abandoned_scans", 12)
+			res.Add("abandoned_scans", 16)
 		}()
 	}
 	for i, j := range jobs {
